@@ -903,9 +903,9 @@ def mutate(rng, b):
 
 
 def has_absurd_length(b):
-    """class predicate of finding F22: long-form length octets with a value above sys.maxsize"""
+    """class predicate of finding F22: long-form length octets with a value of 2^32 or more"""
     for i, o in enumerate(b):
-        if 0x88 <= o < 0xff and int.from_bytes(b[i + 1:i + 1 + (o & 0x7f)], 'big') > sys.maxsize:
+        if 0x84 < o < 0xff and int.from_bytes(b[i + 1:i + 1 + (o & 0x7f)], 'big') >= 2 ** 32:
             return True
     return False
 
@@ -947,13 +947,13 @@ def compare_kinds(ctx, kinds, label, encname, dec, desc, b, variant):
             if kind == 'nonseekable-nonblocking' and got[0] == 'crash' and got[1] == 'TypeError' \
                     and isinstance(got[-1], int) and got[-1] > 0:
                 fid = 'F05'       # None from the raw stream reached BytesIO.write
-            elif ('crash', 'OverflowError') in (got[:2], refout[:2]) and has_absurd_length(b):
-                fid = 'F22'       # length >= 2^63 handed to read(): substrate kinds differ in how they take it
+            elif {got[:2], refout[:2]} & {('crash', 'OverflowError'), ('crash', 'MemoryError')} and has_absurd_length(b):
+                fid = 'F22'       # absurd length handed to read(): substrate kinds differ in how they take it
             elif f06_class(kind, b):
                 if fn(dec, kinds, kind + '/absolute-positions', spec)[:3] == refout[:3]:
                     fid = 'F06'   # disappears once positions stay absolute
             ctx.prop_fail('%s gives a different result for the same octets presented as %s than as %s%s' % (
-                api, kind, against, {'F06': ' (cache dropped, positions renumbered)', 'F05': ' (None from raw.read)', 'F22': ' (length >= 2^63 handed to read())', None: ''}[fid]),
+                api, kind, against, {'F06': ' (cache dropped, positions renumbered)', 'F05': ' (None from raw.read)', 'F22': ' (absurd length handed to read())', None: ''}[fid]),
                 dict(base_case, api=api, substrate=kind, against=against, from_reference=_hide(refout), from_substrate=_hide(got)), finding=fid)
         return ref, sref
     finally:
